@@ -15,8 +15,11 @@ RULE_TEXT = "obligation = (rule, function / writer / emitter branch); evaluation
 
 
 def run(ctx) -> None:
+    from .c14 import rule_V8
+    ctx.rules_run.append("V8")
+    rule_V8(ctx)            # a copy keeps the selected member even when it is an untouched default message
     ctx.rules_run.append("V5")
     rule_V5(ctx)            # copies must not share the selection table with the original
-    for name, fn in (("O1", presence.rule_O1), ("O2", presence.rule_O2), ("O3", presence.rule_O3), ("O4", presence.rule_O4), ("D1", presence.rule_D1)):
+    for name, fn in (("O1", presence.rule_O1), ("O2", presence.rule_O2), ("O3", presence.rule_O3), ("O4", presence.rule_O4), ("O5", presence.rule_O5), ("D1", presence.rule_D1)):
         ctx.rules_run.append(name)
         fn(ctx)
